@@ -232,6 +232,18 @@ func runC08(c *Ctx) {
 		wc := map[string]interface{}{"attack": ic.name, "suite": suiteName(ic.suite), "through": "Config.Clone()", "client_error": errStr(outC.cli.err), "server_error": errStr(outC.srv.err)}
 		c08Judge(rep, "identity-via-Clone/"+ic.name, ic.attacked, outC, wc)
 		rep.Eval("identity-via-Clone/" + ic.name + "/" + suiteName(ic.suite))
+		// and through GetConfigForClient: the listener's own Config asks for less (no, any, or an unverified client
+		// certificate; no ClientCAs) and the per-client Config it returns is the one above. Everything decided after the
+		// ClientHello has to follow the per-client Config.
+		inner := scfg.Clone()
+		outer := scfg.Clone()
+		outer.ClientAuth = []gmtls.ClientAuthType{gmtls.NoClientCert, gmtls.RequestClientCert, gmtls.RequireAnyClientCert}[i%3]
+		outer.ClientCAs = nil
+		outer.GetConfigForClient = func(*gmtls.ClientHelloInfo) (*gmtls.Config, error) { return inner, nil }
+		outG := handshakePair(ccfg.Clone(), outer, nil)
+		wg := map[string]interface{}{"attack": ic.name, "suite": suiteName(ic.suite), "through": "GetConfigForClient", "listener_client_auth": authName(outer.ClientAuth), "client_error": errStr(outG.cli.err), "server_error": errStr(outG.srv.err)}
+		c08Judge(rep, "identity-via-GetConfigForClient/"+ic.name, ic.attacked, outG, wg)
+		rep.Eval("identity-via-GetConfigForClient/" + ic.name + "/" + suiteName(ic.suite))
 	})
 
 	// ---- (1c) what one handshake receives must not become a trust anchor for the next: a genuine server appends a
@@ -318,6 +330,7 @@ func runC08Scripted(c *Ctx, pki *tlsPKI) {
 	}
 	var cases []sc
 	for _, n := range []string{"ske-over-other-client-random", "ske-over-other-server-random", "ske-over-other-encryption-certificate", "ske-by-other-key", "ske-replayed-from-recorded-session", "ske-by-encryption-key",
+		"ske-omitted", "ske-omitted-certificate-request-follows", "ske-replaced-by-certificate-request",
 		"server-finished-wrong", "server-finished-of-client-label", "control"} {
 		cases = append(cases, sc{n, false, 0})
 	}
@@ -404,6 +417,9 @@ func runC08Scripted(c *Ctx, pki *tlsPKI) {
 				ccfg := &gmtls.Config{GMSupport: gmtls.NewGMSupport(), ServerName: tlsServerName, RootCAs: pki.pool, Time: func() timeT { return fixedNow }, Rand: mon.NewRNG(rr.U64()), SessionTicketsDisabled: true}
 				end = gmtls.Client(endConn, ccfg)
 				peer.SignKey, peer.EncKey, peer.SignCert, peer.EncCert = pki.sigKey.D, pki.encKey.D, pki.sigCert.Raw, pki.encCert.Raw
+				// without the ServerKeyExchange nothing the server sends is signed: whoever holds the encryption key alone
+				// (or, with a CertificateRequest in its place, whatever message stands there) must not pass
+				peer.RequestClientCert = cs.name == "ske-omitted-certificate-request-follows" || cs.name == "ske-replaced-by-certificate-request"
 			}
 			peer.Conn = peerConn
 			peer.Mutate = func(step string, def []ref.Item) []ref.Item {
@@ -425,6 +441,12 @@ func runC08Scripted(c *Ctx, pki *tlsPKI) {
 					return hs(ref.MarshalSKE(signWith(pki.encKey, ref.SKEParams(peer.ClientRandom, peer.ServerRandom, pki.encCert.Raw))))
 				case step == ref.StServerKeyExchange && cs.name == "ske-replayed-from-recorded-session" && recordedSKE != nil:
 					return hs(recordedSKE)
+				case step == ref.StServerKeyExchange && (cs.name == "ske-omitted" || cs.name == "ske-omitted-certificate-request-follows"):
+					return nil
+				case step == ref.StServerKeyExchange && cs.name == "ske-replaced-by-certificate-request":
+					return hs(ref.MarshalCertRequest([]byte{1, 64}, nil))
+				case step == ref.StCertificateRequest && cs.name == "ske-replaced-by-certificate-request":
+					return nil
 				case step == ref.StServerFinished && cs.name == "server-finished-wrong":
 					return hs(ref.HSMsg(ref.HSFinished, rnd.Bytes(12)))
 				case step == ref.StServerFinished && cs.name == "server-finished-of-client-label":
